@@ -52,6 +52,8 @@ def run(ctx):
     names = [n for n in ops if n not in ("hmax",)]
     for i, rng in ctx.cases("pairs", ctx.n(700, 20000)):
         one(ctx, rng, xr, ops, names)
+    for i, rng in ctx.cases("sector_pairs", ctx.n(240, 6000)):
+        one(ctx, rng, xr, ops, names, sector=True)
     for i, rng in ctx.cases("partition_rotations", ctx.n(192, 4000)):
         partition_rotations(ctx, rng, xr, ops)
 
@@ -128,12 +130,17 @@ def ties(x, op):
     return False
 
 
-def one(ctx, rng, xr, ops, names):
+def one(ctx, rng, xr, ops, names, sector=False):
     rec = ctx.rec
     nf = int(rng.choice([3, 4, 6, 9, 14]))
     f, fm = gen.freq_grid(rng, nf=nf, dtype="float64")
     f = f.astype("float32").astype("float64")
-    th, dd, dmeta = gen.dir_grid(rng, nd=int(rng.choice([3, 4, 8, 12, 24])), full=True, exact=True)
+    if sector:
+        # a uniformly spaced sector (directional buoy / flume / SWAN sector run): no circle to rotate round, but the
+        # stored order (ascending or descending), dimension order, layout and width must still not matter
+        th, dd, dmeta = gen.dir_grid(rng, nd=int(rng.choice([3, 4, 7, 10, 18])), full=False, exact=True)
+    else:
+        th, dd, dmeta = gen.dir_grid(rng, nd=int(rng.choice([3, 4, 8, 12, 24])), full=True, exact=True)
     lnames, lsizes = gen.lead_dims(rng, nlead=int(rng.choice([0, 1, 2])), maxsize=3)
     cls = str(rng.choice(["multimodal", "multimodal", "smooth", "noise", "single_bin", "dynrange"]))
     A, classes = gen.stack_spectra(rng, f, th, lsizes, cls=cls)
@@ -141,10 +148,10 @@ def one(ctx, rng, xr, ops, names):
     A[np.abs(A) < 1e-30] = 0
     base_dt = str(rng.choice(["float64", "float32"]))
     x = gen.make_da(A, f, th, lnames, lsizes, dtype=base_dt)
-    if rng.random() < 0.3:   # WW3-like stored order as the *reference* layout too
+    if not sector and rng.random() < 0.3:   # WW3-like stored order as the *reference* layout too
         x = x.roll(dir=int(rng.integers(1, len(th))), roll_coords=True)
     aux = O.make_aux(rng, x, xr)
-    T = str(rng.choice(TRANSFORMS))
+    T = str(rng.choice(["permute", "fortran", "strided", "widen", "reverse", "reverse", "reverse"] if sector else TRANSFORMS))
     y, tdesc = transform(rng, x, T, xr)
     chosen = list(rng.choice(names, size=8, replace=False))
     f32 = (x.dtype == np.float32) or (y.dtype == np.float32)
@@ -155,7 +162,9 @@ def one(ctx, rng, xr, ops, names):
             continue
         if op.watershed and T == "reverse":
             continue   # the statement exempts the watershed's tie-breaking from orientation
-        key = "%s|T=%s|%s|nd=%d|lead=%d|%s" % (name, T, base_dt, len(th), len(lnames), cls)
+        key = "%s|T=%s|%s|nd=%d|lead=%d|%s%s" % (name, T, base_dt, len(th), len(lnames), cls, "|sector" if sector else "")
+        if sector:
+            rec.note("sector:" + T)
         if (op.exact or op.peak or name in ("dp", "dm")) and ties(x, op):
             rec.skip(name, "discrete decision tied within rounding")
             continue
